@@ -453,10 +453,51 @@ def run_env(hid, header, items, rnd):
         bump("env_histories_with_numpy_env")
 
 
+def crowd_probe():
+    """One crowded level per side (more than 2^16 resting orders at one price: a legal market state): the market-data
+    dictionary, the observation arrays and the touch getters must agree on volumes and order counts."""
+    nb, na = 65537, 70000
+    envs = [("StepEnv", core.StepEnv(3, 5, 1, 1000, True))]
+    try:
+        import numpy  # noqa: F401
+        envs.append(("StepEnvNumpy", core.StepEnvNumpy(3, 5, 1, 1000, True)))
+    except Exception:  # noqa: BLE001
+        pass
+    for name, e in envs:
+        try:
+            if name == "StepEnv":
+                for _ in range(nb):
+                    e.place_order(True, 1, 7, 100)
+                for _ in range(na):
+                    e.place_order(False, 1, 8, 110)
+            else:
+                import numpy as np
+                e.submit_limit_orders((np.array([True] * nb + [False] * na), np.array([1] * (nb + na), dtype=np.uint32),
+                                       np.array([7] * nb + [8] * na, dtype=np.uint32), np.array([100] * nb + [110] * na, dtype=np.uint32)))
+            e.step()
+            e.step()
+            md = e.get_market_data()
+            bad = []
+            for key, want in (("n_bid_0", nb), ("n_ask_0", na), ("bid_vol_0", nb), ("ask_vol_0", na), ("bid_vol", nb), ("ask_vol", na)):
+                if int(md[key][-1]) != want:
+                    bad.append(f"crowd_market_data:{key}")
+            arr = e.level_2_data_array() if name == "StepEnv" else e.level_2_data()
+            for k, want in ((3, nb), (4, na), (5, nb), (6, nb), (7, na), (8, na)):
+                if int(arr[k]) != want:
+                    bad.append(f"crowd_{name}_level_2_array:{k}")
+            if bad:
+                report("C19", "crowd-" + name, 0, bad, "step")
+            STATS["crowd_probes"] = STATS.get("crowd_probes", 0) + 1
+        except BaseException as ex:  # noqa: BLE001
+            report("C19", "crowd-" + name, 0, ["crowd_exception_" + type(ex).__name__ + "_" + str(ex)[:50].replace(" ", "_")], "crowd")
+
+
 def main():
     args = sys.argv[1:]
     stream = args[0]
     seed = int(args[args.index("--seed") + 1]) if "--seed" in args else 1
+    if "--crowd" in args:
+        crowd_probe()
     snapdir = args[args.index("--snapdir") + 1] if "--snapdir" in args else None
     if snapdir:
         os.makedirs(snapdir, exist_ok=True)
